@@ -60,11 +60,14 @@ func expFrames(s *profile.Sample) []expFrame {
 			ln := l.Line[j]
 			fn := ln.Function
 			inl := j != len(l.Line)-1
-			f := expFrame{file: fn.Filename, inlined: inl, key: fmt.Sprintf("%q|%q|%d|%d|%v", fn.Name, fn.Filename, ln.Line, ln.Column, inl)}
+			// what is shown is the cleaned-up file name (the working-directory prefix of remote
+			// builds is dropped); what tells two frames apart is the name as recorded
+			shown := strings.TrimPrefix(strings.TrimPrefix(fn.Filename, "/proc/self/cwd/./"), "/proc/self/cwd/")
+			f := expFrame{file: shown, inlined: inl, key: fmt.Sprintf("%q|%q|%d|%d|%v", fn.Name, fn.Filename, ln.Line, ln.Column, inl)}
 			if fn.Name != "" {
 				f.full = lineInfo(fn.Name, ln.Line, ln.Column)
 			} else {
-				f.full = lineInfo(fn.Filename, ln.Line, ln.Column)
+				f.full = lineInfo(shown, ln.Line, ln.Column)
 			}
 			out = append(out, f)
 		}
@@ -245,6 +248,31 @@ func runAPI(c *harness.Ctx) harness.Result {
 			smp.Location = append(smp.Location, p.Location[r.Intn(len(p.Location))])
 		}
 	}
+	if r.Intn(4) == 0 && len(p.Function) > 0 {
+		// the same function name in two files that differ only in the working-directory prefix of
+		// a remote build: two functions, shown under the same cleaned-up file name
+		f := p.Function[r.Intn(len(p.Function))]
+		if f.Filename != "" && !strings.HasPrefix(f.Filename, "/") {
+			var maxF, maxL uint64
+			for _, x := range p.Function {
+				if x.ID > maxF {
+					maxF = x.ID
+				}
+			}
+			for _, x := range p.Location {
+				if x.ID > maxL {
+					maxL = x.ID
+				}
+			}
+			if maxF < 1<<62 && maxL < 1<<62 && len(p.Sample) > 0 {
+				tw := &profile.Function{ID: maxF + 1, Name: f.Name, SystemName: f.SystemName, Filename: "/proc/self/cwd/" + f.Filename, StartLine: f.StartLine}
+				tl := &profile.Location{ID: maxL + 1, Address: 0x7770000, Line: []profile.Line{{Function: tw, Line: 3}}}
+				p.Function, p.Location = append(p.Function, tw), append(p.Location, tl)
+				sm := p.Sample[r.Intn(len(p.Sample))]
+				sm.Location = append([]*profile.Location{tl}, sm.Location...)
+			}
+		}
+	}
 	gran := []string{"functions", "filefunctions", "files", "lines", "addresses"}[r.Intn(5)]
 	noinl, cols := r.Intn(4) == 0, r.Intn(3) == 0
 	index := r.Intn(len(p.SampleType))
@@ -258,7 +286,9 @@ func runAPI(c *harness.Ctx) harness.Result {
 		return res
 	}
 	ref := q.Copy()
-	rpt := report.New(q, &report.Options{OutputFormat: report.Dot, SampleValue: func(v []int64) int64 { return v[index] }, SampleType: p.SampleType[index].Type, SampleUnit: p.SampleType[index].Unit})
+	// divide_by only changes how values are displayed (the set's scale factor), not the values
+	ratio := []float64{0, 0, 0, 1, 0.5, 0.001, 3}[r.Intn(7)]
+	rpt := report.New(q, &report.Options{OutputFormat: report.Dot, SampleValue: func(v []int64) int64 { return v[index] }, SampleType: p.SampleType[index].Type, SampleUnit: p.SampleType[index].Unit, Ratio: ratio})
 	ss := rpt.Stacks()
 	b, err := json.Marshal(ss)
 	if err != nil {
